@@ -37,19 +37,25 @@ Definition f32_enc (s : bool) (k q : Z) : Z :=
   let mag := (q' + 149) * 2 ^ 23 + k' in
   if 255 * 2 ^ 23 <=? mag then f32_inf s else (if s then 2 ^ 31 else 0) + mag.
 
+(* +-infinity (a result that overflowed the storage / communication dtype); NaN stays outside the model *)
+Definition f32_is_inf (bits : Z) : bool := (bits =? f32_inf false) || (bits =? f32_inf true).
+
 Definition f32_add (x y : Z) : Z :=
   match f32_dec x, f32_dec y with
   | Some (sx, Mx, Ex), Some (sy, My, Ey) =>
       let E0 := Z.min Ex Ey in
       let S := (if sx then - Mx else Mx) * 2 ^ (Ex - E0) + (if sy then - My else My) * 2 ^ (Ey - E0) in
       if S =? 0 then (if sx && sy then 2 ^ 31 else 0) else f32_enc (S <? 0) (Z.abs S) E0
-  | _, _ => -1
+  | _, _ =>
+      if f32_is_inf x then (if f32_is_inf y then (if x =? y then x else -1) else match f32_dec y with Some _ => x | None => -1 end)
+      else if f32_is_inf y then (match f32_dec x with Some _ => y | None => -1 end)
+      else -1
   end.
 
 (* x -> float32(narrow(x)) for the narrow format (p, qmin, overflow at 2^ovf) *)
 Definition f32_cast (p qmin ovf : Z) (bits : Z) : Z :=
   match f32_dec bits with
-  | None => -1
+  | None => if f32_is_inf bits then bits else -1
   | Some (s, M, E) =>
       let '(k, q) := rne p qmin M E in
       if 2 ^ (ovf - qmin) <=? k * 2 ^ (q - qmin) then f32_inf s else f32_enc s k q
@@ -69,6 +75,11 @@ Example f32_add_tie_even : f32_add 1065353216 864026624 = 1065353216. Proof. ref
 Example bf16_round_tie : bf16_round 1065385984 = 1065353216 /\ bf16_round 1065451520 = 1065484288.
 Proof. split; reflexivity. Qed.    (* 1+2^-8 -> 1 (even), 1+3*2^-8 -> 1+2^-6 *)
 Example fp16_round_overflow : fp16_round 1199566848 = f32_inf false. Proof. reflexivity. Qed.             (* 65520 -> inf *)
+Example f32_inf_arith :
+  f32_add (f32_inf false) 1065353216 = f32_inf false /\ f32_add 3212836864 (f32_inf true) = f32_inf true
+  /\ f32_add (f32_inf false) (f32_inf true) = -1 /\ fp16_round (f32_inf true) = f32_inf true
+  /\ f32_add 2139095039 2139095039 = f32_inf false.      (* max + max overflows *)
+Proof. repeat split; reflexivity. Qed.
 Example fp16_round_subnormal : fp16_round 855638016 = 0 /\ fp16_round 864026624 = 864026624.
 Proof. split; reflexivity. Qed.    (* 2^-25 -> 0 (tie to even), 2^-24 stays *)
 
@@ -151,3 +162,12 @@ Definition C06_agree (P : params unit (list Z) unit) (presence : list (list bool
   && (if forallb negb (o_hung o)
       then lockstep_agree P h v0 b0 (map (fun s => last_or s v0) (o_snaps o))
       else negb (synced P h)).
+
+(* the same, for scenarios whose VALUES are outside the executable arithmetic (parameters that are not float32): only
+   the per-rank logs and the set of hung ranks are compared with the model (they do not depend on values) *)
+Definition C06_agree_logs (P : params unit (list Z) unit) (presence : list (list bool)) (py_starves : bool) (o : observed) : bool :=
+  let h := map entry_of presence in
+  let fuel := (4 * (length h + 1) * (p_world P + 1))%nat in
+  let m := model_obs P h [] [] fuel in
+  list_eqb log_eqb (o_logs m) (o_logs o) && list_eqb Bool.eqb (o_hung m) (o_hung o)
+  && Bool.eqb py_starves (negb (forallb (no_starv_entry P) h)).
